@@ -13,6 +13,16 @@ Modes:
              compared with a 10-line model at every query.
   ownership  E2: 2-3 pools x 2-4 workers, acquire/release operations with
              pre-emption between check and act; belief-based ownership log.
+             Scenario 'blocking': rounds of blocking acquires (acquire_by /
+             _acquire_all with blocking=True) against owners that use and then
+             release their workers; every pool holds nothing when it starts to
+             wait (or waits in worker order), so a correct implementation cannot
+             dead-lock: an exact deadlock witness is the verdict.
+             Scenario 'run_siblings': 2-3 threads of one pool each in
+             WorkerPool.run() (stub transport whose futures a controlled
+             "remote" thread completes) while 1-2 other pools probe
+             acquire_by / release(pool) (or call run() themselves) on the
+             shared workers.
   poolops    E4: pool-level operations over the simulated transport must leave
              no worker acquired when they return or raise.  Pools may list
              workers that are absent / have exited / are busy with an in-flight
@@ -39,7 +49,11 @@ RULE = (
     'liveness = 10-40 step history of clock '
     'advances, calls, late completions (ok/error/cancelled), shutdown, server heartbeats and is_alive '
     'queries; ownership = 2-3 pool threads x 3-8 acquire_by/_acquire_all/next_idle_worker/'
-    'release_all/release operations over 2-4 shared workers; poolops = call_and_wait/run/as_completed '
+    'release_all/release operations over 2-4 shared workers, or (blocking) 2-3 pools x 1-3 rounds of '
+    'release_all, blocking acquire_by / _acquire_all(blocking=True), owner-side use of the owned workers, '
+    'release over 1-3 workers, or (run_siblings) 2-3 threads of one pool x 1-2 WorkerPool.run() calls '
+    'plus 1-2 other pools x 2-5 acquire_by/release(pool) probes or run() calls over 1-2 workers, task '
+    'completions delivered by a controlled thread at any point; poolops = call_and_wait/run/as_completed '
     'normal and failing over pools of 1-3 workers each ok / absent / exited / busy (>= 1 ok), '
     'call_and_wait with an unpicklable argument, run() with every worker busy for longer than its '
     'give-up time (dilated clock), and as_completed (1-3 workers, parallelism 1-2, 1-5 timed tasks) '
@@ -53,6 +67,8 @@ ASSUMPTIONS = [
     'scheduler assumptions as in C04; poolops uses the transport stand-in (C14 assumptions)',
     'heartbeat_delivery: a worker sends its notices in order (alive..., dead, then possibly alive... of a restarted incarnation); the transport may deliver them in any order. Only an alive notice SENT BEFORE an already delivered dead notice counts as late; an alive notice sent after it (restart) may revive the worker; a stale dead notice killing a newer incarnation is not judged',
     'a busy worker is one with max_parallelism in-flight calls issued through the public Worker.submit by another user of the same Worker singleton (no pool owns it); an absent worker has no server and refuses connections; an exited worker was alive, then died and its death notice unregistered it',
+    'blocking: a pool starts a blocking acquire only while it holds no worker (it calls release_all first), _acquire_all(blocking=True) waits in the worker order of the pool (the same for every pool), and every pool releases what it holds without waiting for anything else: no circular wait exists, so under a correct implementation every schedule terminates',
+    'run_siblings: the transport is a stub; a call issued by run() is in flight until a controlled thread completes its future (any point of the schedule); time stands still (no give-up path); a probing pool releases with the ownership-checked release(pool) only; a worker counts as used by pool P between the hand-out of next_idle_worker to a run() of P and the end of that run(); a worker locked by pool Q while a run() of P != Q has a call in flight on it (or issues one) is reported',
     'as_completed_contended: the second pool only calls acquire_by / release(pool) on the shared workers; a worker counts as busy for the first pool strictly between the start and the end of the handler of one of its tasks (server side clock)',
 ]
 REQUIRED = ['registry_schedules', 'registry_mutations', 'liveness_queries', 'late_heartbeats',
@@ -60,7 +76,9 @@ REQUIRED = ['registry_schedules', 'registry_mutations', 'liveness_queries', 'lat
             'line_preemptions', 'heartbeat_delivery_schedules', 'late_alive_deliveries',
             'degraded_pool_cases', 'inspected_unusable_workers', 'unpicklable_argument_cases',
             'all_busy_cases', 'contended_cases', 'contended_acquire_probes',
-            'exhausted_with_tasks_in_flight']
+            'exhausted_with_tasks_in_flight', 'blocking_schedules', 'blocking_acquires_that_waited',
+            'run_sibling_schedules', 'pool_runs_completed', 'runs_handed_a_worker_in_use_by_a_sibling',
+            'probe_acquires']
 # Mechanism keys of the audited root causes (classified by the scenario of the case).
 K_RUN_LEAK = 'pool-run-leaves-inspected-workers-acquired'
 K_CALL_LEAK = 'call-and-wait-leaks-workers-when-call-raises'
@@ -68,6 +86,15 @@ K_AC_RELEASE = 'as-completed-releases-busy-workers'
 K_LATE_HB = 'late-alive-heartbeat-resurrects-dead-worker'
 # two concurrent pushed heartbeats: the handler that read the clock first registers last
 K_HB_BACKWARDS = 'pushed-heartbeat-register-overwrites-newer-timestamp'
+# Worker.acquire_by(pool, blocking=True) waits for the ownership lock while holding
+# the worker's _states_lock, which release() and every operation of the owner need
+K_BLOCK_DEADLOCK = 'blocking-acquire-holds-states-lock-deadlock'
+# WorkerPool.run(): its finally releases the worker although a sibling run() of the
+# same pool (handed the same, already owned worker) is still using it
+K_RUN_SIBLING = 'pool-run-releases-worker-of-sibling-run'
+# ... and that finally is the unconditional worker.release(): it frees the lock
+# that meanwhile belongs to another pool
+K_RUN_FOREIGN = 'pool-run-unconditional-release-frees-lock-of-other-pool'
 CHUNK_TIMEOUT_S = {'quick': 300, 'thorough': 3000}
 _uid = itertools.count()
 
@@ -544,11 +571,17 @@ def gen_liveness_case(rng):
 
 
 def run_ownership_case(ctx, case):
+  if case.get('scenario') == 'run_siblings':
+    return run_siblings_case(ctx, case)
   from ml_metrics._src.chainables import courier_worker
   from ml_metrics._src.utils import courier_utils
+  from vlib import c20lib
   from vlib.sched import core
   took = patch_modules()
-  clock = FakeClock()
+  blocking = case.get('scenario') == 'blocking'
+  # (blocking: a waiting acquire may be implemented by polling; sleep() is then a
+  # scheduling point and the walk is random, so that a poller cannot starve the owner)
+  clock = c20lib.SchedClock() if blocking else FakeClock()
   courier_utils.time = clock
   courier_worker.time = clock
   courier_utils._worker_registry = courier_utils.WorkerRegistry()  # pylint: disable=protected-access
@@ -560,12 +593,14 @@ def run_ownership_case(ctx, case):
     w = courier_worker.Worker(addr)
     w._client, w._heartbeat_client = StubClient(), StubClient()  # pylint: disable=protected-access
     w._refresh_clients = lambda: None  # pylint: disable=protected-access
+    w._lock = c20lib.counting_lock()  # pylint: disable=protected-access
     courier_utils.worker_registry().register(addr, clock.now)  # alive
     workers.append(w)
   pools = [courier_worker.WorkerPool(workers) for _ in range(n_p)]
   # WorkerPool re-creates Worker objects through the singleton; make sure they are ours.
   shared = all(pw is w for p in pools for pw, w in zip(p.all_workers, workers))
-  sched = core.Scheduler(case['sched_seed'], strategy=case.get('strategy', 'random'),
+  sched = core.Scheduler(case['sched_seed'],
+                         strategy='random' if blocking else case.get('strategy', 'random'),
                          p_sync=0.5, p_line=0.3, max_steps=60000)
   log = []
   belief = {i: set() for i in range(n_w)}   # worker index -> pools believing they own it
@@ -574,6 +609,24 @@ def run_ownership_case(ctx, case):
   thread_pool = {}
   orig_release = courier_worker.Worker.release
   orig_acquire = courier_worker.Worker.acquire_by
+  waited = [0]
+  lock_snapshot = []
+  if blocking:
+    # Who holds which lock at the instant the scheduler finds no thread enabled
+    # (afterwards the aborted threads unwind and release everything).
+    orig_describe = sched._describe_blocked  # pylint: disable=protected-access
+
+    def describe_blocked():
+      out = orig_describe()
+      for i, w in enumerate(workers):
+        lock_snapshot.append({
+            'worker': i,
+            'states_lock_held_by': getattr(w._states_lock, '_owner', None),  # pylint: disable=protected-access
+            'ownership_lock': f'Lock@{id(w._lock):x}.acquire',  # pylint: disable=protected-access
+            'owner_pool': pidx.get(id(w._worker_pool))})  # pylint: disable=protected-access
+      return out
+
+    sched._describe_blocked = describe_blocked  # pylint: disable=protected-access
 
   def release(self, *args, **kwargs):
     st = core.ACTIVE.me() if core.ACTIVE else None
@@ -582,8 +635,10 @@ def run_ownership_case(ctx, case):
       owner = self._worker_pool  # pylint: disable=protected-access
       locked = self._lock.locked()  # pylint: disable=protected-access
       wi = widx.get(id(self))
+      n0 = getattr(self._lock, 'releases', 0)  # pylint: disable=protected-access
       r = orig_release(self, *args, **kwargs)
-      released = locked and not self._lock.locked()  # pylint: disable=protected-access
+      # (not read from locked(): a waiting acquirer may hold the lock again already)
+      released = getattr(self._lock, 'releases', 0) > n0  # pylint: disable=protected-access
       log.append(('release', caller, wi, pidx.get(id(owner)), locked, released))
       if wi is not None and released and owner is not None and caller is not None \
           and pidx.get(id(owner)) != caller:
@@ -620,6 +675,21 @@ def run_ownership_case(ctx, case):
           p._acquire_all()  # pylint: disable=protected-access
         elif op[0] == 'next_idle':
           p.next_idle_worker(maybe_acquire=True)
+        elif op[0] == 'acquire_blocking':
+          wi = op[1] % n_w
+          if belief[wi] - {pi}:
+            waited[0] += 1
+          workers[wi].acquire_by(p, blocking=True)
+        elif op[0] == 'acquire_all_blocking':
+          if any(belief[i] - {pi} for i in range(n_w)):
+            waited[0] += 1
+          p._acquire_all(blocking=True)  # pylint: disable=protected-access
+        elif op[0] == 'use':
+          # what an owner does with its workers between acquire and release
+          for i in range(n_w):
+            if pi in belief[i]:
+              w = workers[i]
+              log.append(('use', pi, i, w.has_capacity, w.is_alive, len(w.pendings)))
         elif op[0] == 'release_all':
           p.release_all()
         elif op[0] == 'release_owned':
@@ -647,8 +717,28 @@ def run_ownership_case(ctx, case):
   if not shared or 'threading' not in took:
     ctx.inconclusive_case('pools do not share the worker objects / shim missing', case)
     return
+  if blocking:
+    ctx.count('blocking_schedules')
+    ctx.count('blocking_acquires_that_waited', waited[0])
   if sched.status == 'deadlock':
-    ctx.violation('deadlock', case, sched.witness, mechanism='ownership:deadlock')
+    mech = 'ownership:deadlock'
+    holders = []
+    if blocking:
+      # Audited root cause, decided from the lock state at the deadlock: a thread
+      # holds the _states_lock of a worker while it waits for the ownership lock
+      # of that same worker.
+      by_idx = {('c', t.idx): t.name for t in sched.threads}
+      for snap in lock_snapshot:
+        name = by_idx.get(snap['states_lock_held_by'])
+        if name and (sched.witness.get(name) or {}).get('blocked_on') == snap['ownership_lock']:
+          holders.append({'thread': name, 'worker': snap['worker'],
+                          'worker_owned_by_pool': snap['owner_pool']})
+      if holders:
+        mech = K_BLOCK_DEADLOCK
+    ctx.violation('deadlock', case,
+                  {'witness': sched.witness,
+                   'holds_states_lock_while_waiting_for_ownership_lock': holders,
+                   'log_tail': log[-12:]}, mechanism=mech)
     return
   if sched.status != 'ok':
     ctx.inconclusive_case(sched.status, case)
@@ -672,6 +762,11 @@ def run_ownership_case(ctx, case):
 
 
 def gen_ownership_case(rng):
+  r = rng.random()
+  if r < 0.15:
+    return gen_blocking_case(rng)
+  if r < 0.35:
+    return gen_run_siblings_case(rng)
   pools = []
   for _ in range(rng.randint(2, 3)):
     ops = []
@@ -681,6 +776,338 @@ def gen_ownership_case(rng):
       ops.append([k, rng.randrange(4)])
     pools.append(ops)
   return {'mode': 'ownership', 'workers': rng.randint(2, 4), 'pools': pools}
+
+
+def gen_blocking_case(rng):
+  """Rounds of: release everything, wait for workers, use them, release them."""
+  n_w = rng.randint(1, 3)
+  pools = []
+  for _ in range(rng.randint(2, 3)):
+    ops = []
+    for _ in range(rng.randint(1, 3)):
+      k = rng.choice(['acquire', 'next_idle', 'acquire_blocking', 'acquire_blocking',
+                      'acquire_all_blocking'])
+      if k in ('acquire_blocking', 'acquire_all_blocking'):
+        ops.append(['release_all', 0])   # waits only while holding nothing
+      ops.append([k, rng.randrange(n_w)])
+      for _ in range(rng.randint(0, 2)):
+        ops.append([rng.choice(['use', 'query', 'acquire']), rng.randrange(n_w)])
+      ops.append([rng.choice(['release_all', 'release_all', 'release_owned']), 0])
+    pools.append(ops)
+  if not any(op[0].endswith('_blocking') for ops in pools for op in ops):
+    pools[0] = [['release_all', 0], ['acquire_blocking', 0], ['use', 0], ['release_all', 0]] + pools[0]
+  return {'mode': 'ownership', 'scenario': 'blocking', 'workers': n_w, 'pools': pools}
+
+
+# ---------------------------------------------------------------------------
+# ownership: several threads of one pool inside WorkerPool.run() (E2)
+# ---------------------------------------------------------------------------
+_run_lines = {'done': False}
+
+
+class _IssuingStub:
+  """courier.Client look-alike: records who issued which call; futures completed by the harness."""
+
+  def __init__(self, on_issue):
+    self._on_issue = on_issue
+    self.futures = self
+
+  def __getattr__(self, method):
+    if method.startswith('_'):
+      raise AttributeError(method)
+
+    def call(*a, **k):
+      del a, k
+      f = cf.Future()
+      self._on_issue(method, f)
+      return f
+    return call
+
+
+def run_siblings_case(ctx, case):
+  """Threads [pool index, ops]: ['run'] = pool.run(task); ['probe', w, hold] = acquire_by / release(pool)."""
+  from ml_metrics._src.chainables import courier_worker, lazy_fns
+  from ml_metrics._src.utils import courier_utils
+  from vlib import c20lib
+  from vlib.sched import core
+  took = patch_modules()
+  if not _run_lines['done']:
+    core.install_line_yield([courier_worker.WorkerPool.run])
+    _run_lines['done'] = True
+  clock = c20lib.SchedClock()
+  courier_utils.time = clock
+  courier_worker.time = clock
+  courier_utils._worker_registry = courier_utils.WorkerRegistry()  # pylint: disable=protected-access
+  uid = next(_uid)
+  n_w, n_p = case['workers'], case['n_pools']
+  threads = case['threads']
+  log = []
+  issued = []                                 # {'f', 'worker', 'thread', 'pool', 'done'}
+  thread_pool, in_run, using = {}, {}, {}     # by controlled thread index
+  undercut = {}   # run (thread) -> the sibling run whose finally released the worker it uses
+  belief = {i: set() for i in range(n_w)}
+  workers = []
+  for i in range(n_w):
+    addr = f'sib_{uid}_{i}'
+    w = courier_worker.Worker(addr)
+
+    def on_issue(method, f, i=i):
+      st = core.ACTIVE.me() if core.ACTIVE else None
+      tid = st.idx if st else -1
+      pi = thread_pool.get(tid)
+      issued.append({'f': f, 'worker': i, 'thread': tid, 'pool': pi, 'method': method})
+      log.append(('call', tid, pi, i, method))
+      others = sorted(belief[i] - {pi})
+      if in_run.get(tid) and others:
+        # the run() of pool pi sends its task to a worker that another pool owns
+        log.append(('VIOLATION', 'worker_used_by_two_pools', i,
+                    {'call_issued_by_run_of_pool': pi, 'worker_owned_by_pools': others,
+                     'how': 'call issued on a worker owned by another pool',
+                     'worker_released_under_this_run_by': undercut.get(tid)}))
+
+    w._lock = c20lib.counting_lock()  # pylint: disable=protected-access
+    w._client = _IssuingStub(on_issue)  # pylint: disable=protected-access
+    w._heartbeat_client = StubClient()  # pylint: disable=protected-access
+    w._refresh_clients = lambda: None  # pylint: disable=protected-access
+    courier_utils.worker_registry().register(addr, clock.now)
+    workers.append(w)
+  pools = [courier_worker.WorkerPool(workers) for _ in range(n_p)]
+  shared = all(pw is w for p in pools for pw, w in zip(p.all_workers, workers))
+  widx = {id(w): i for i, w in enumerate(workers)}
+  pidx = {id(p): i for i, p in enumerate(pools)}
+  sched = core.Scheduler(case['sched_seed'], strategy='random', p_sync=0.5, p_line=0.3,
+                         max_steps=120000)
+  orig_release = courier_worker.Worker.release
+  orig_acquire = courier_worker.Worker.acquire_by
+  orig_next_idle = courier_worker.WorkerPool.next_idle_worker
+  saved_futures = courier_utils.futures
+  courier_utils.futures = c20lib.sched_futures(saved_futures)
+  counters = {'handed_in_use': 0, 'probe_acquires': 0, 'runs': 0}
+
+  def me():
+    st = core.ACTIVE.me() if core.ACTIVE else None
+    return st.idx if st else -1
+
+  def release(self, *args, **kwargs):
+    tid = me()
+    caller = thread_pool.get(tid)
+    with self._states_lock:  # pylint: disable=protected-access
+      owner = pidx.get(id(self._worker_pool))  # pylint: disable=protected-access
+      locked = self._lock.locked()  # pylint: disable=protected-access
+      wi = widx.get(id(self))
+      n0 = getattr(self._lock, 'releases', 0)  # pylint: disable=protected-access
+      r = orig_release(self, *args, **kwargs)
+      released = getattr(self._lock, 'releases', 0) > n0  # pylint: disable=protected-access
+      if wi is None:
+        return r
+      from_run = bool(in_run.get(tid))
+      unconditional = not args and not kwargs
+      # runs of the caller's own pool that were handed this worker and are not over
+      siblings = sorted(t for t, u in using.items()
+                        if u == wi and t != tid and thread_pool.get(t) == caller)
+      log.append(('release', tid, caller, wi, owner, released, from_run, siblings))
+      if released:
+        if owner is not None and caller is not None and owner != caller:
+          log.append(('VIOLATION', 'release_by_non_owner', wi,
+                      {'released_by_pool': caller, 'lock_owned_by_pool': owner,
+                       'from_the_finally_of_run': from_run, 'unconditional_release': unconditional}))
+        belief[wi].discard(owner)
+        # the release that ended the ownership of pool `owner`
+        last_release[(wi, owner)] = {'thread': tid, 'pool': caller, 'owner': owner,
+                                     'from_run': from_run}
+        if from_run and owner == caller:
+          for t in siblings:
+            undercut[t] = {'finally_of_run_in_thread': tid, 'pool': caller, 'worker': wi}
+      if using.get(tid) == wi and from_run:
+        using.pop(tid, None)
+      return r
+
+  last_release = {}
+
+  def acquire_by(self, worker_pool, *, blocking=False):
+    wi, pi = widx.get(id(self)), pidx.get(id(worker_pool))
+    owned_before = wi is not None and pi in belief[wi]
+    r = orig_acquire(self, worker_pool, blocking=blocking)
+    if wi is not None:
+      with self._states_lock:  # pylint: disable=protected-access
+        log.append(('acquire', me(), pi, wi, r))
+        if r and not owned_before and self._worker_pool is worker_pool:  # pylint: disable=protected-access
+          others = belief[wi] - {pi}
+          if others:
+            log.append(('VIOLATION', 'two_owners', wi, {'pool': pi, 'others': sorted(others)}))
+          belief[wi].add(pi)
+          # calls of run()s of OTHER pools still in flight on this worker
+          busy = [x for x in issued if x['worker'] == wi and not x['f'].done()
+                  and x['pool'] is not None and x['pool'] != pi]
+          if busy:
+            log.append(('VIOLATION', 'worker_used_by_two_pools', wi,
+                        {'acquired_by_pool': pi,
+                         'calls_in_flight_of_run_of_pool': sorted({x['pool'] for x in busy}),
+                         'how': 'acquired while the task of a run() of another pool is in flight',
+                         'worker_released_under_this_run_by':
+                             next((undercut[x['thread']] for x in busy if x['thread'] in undercut),
+                                  None)}))
+    return r
+
+  def next_idle_worker(self, *args, **kwargs):
+    w = orig_next_idle(self, *args, **kwargs)
+    tid = me()
+    if w is not None and in_run.get(tid) and id(w) in widx:
+      wi = widx[id(w)]
+      if any(u == wi and t != tid and thread_pool.get(t) == thread_pool.get(tid)
+             for t, u in using.items()):
+        counters['handed_in_use'] += 1
+      using[tid] = wi
+      pi = thread_pool.get(tid)
+      log.append(('handed', tid, pi, wi, pi in belief[wi]))
+      lr = last_release.get((wi, pi))
+      if (pi not in belief[wi] and lr and lr['from_run'] and lr['pool'] == pi
+          and lr['thread'] != tid):
+        # handed a worker that its pool owned when next_idle_worker looked at it and
+        # that the finally of a sibling run() has released before the hand-out
+        undercut[tid] = {'finally_of_run_in_thread': lr['thread'], 'pool': pi, 'worker': wi}
+    return w
+
+  courier_worker.Worker.release = release
+  courier_worker.Worker.acquire_by = acquire_by
+  courier_worker.WorkerPool.next_idle_worker = next_idle_worker
+  state = {'clients_done': 0}
+  payload = lazy_fns.pickler.dumps(('done', 1))
+  srv_rng = random.Random(case['sched_seed'] ^ 0x5bd1e995)
+  try:
+    def client(pi, ops):
+      tid = me()
+      thread_pool[tid] = pi
+      p = pools[pi]
+      try:
+        for op in ops:
+          if op[0] == 'run':
+            in_run[tid] = True
+            try:
+              res = p.run(lazy_fns.trace(len)([1, 2, 3]))
+              log.append(('run_returned', tid, pi, repr(res)))
+              counters['runs'] += 1
+            except Exception as e:  # pylint: disable=broad-exception-caught
+              log.append(('run_raised', tid, pi, repr(e)[:120]))
+            finally:
+              in_run[tid] = False
+              using.pop(tid, None)
+              undercut.pop(tid, None)
+          elif op[0] == 'probe':
+            w = workers[op[1] % n_w]
+            if w.acquire_by(p):
+              counters['probe_acquires'] += 1
+              for _ in range(op[2]):
+                log.append(('probe_holds', pi, op[1] % n_w, w.has_capacity))
+              w.release(p)
+      finally:
+        state['clients_done'] += 1
+
+    def remote():
+      # the "remote side": completes one in-flight call at a time, at any point
+      s = core.ACTIVE
+      while True:
+        s.block(lambda: state['clients_done'] == len(threads)
+                or any(not x['f'].done() for x in issued), 'remote.idle')
+        pend = [x for x in issued if not x['f'].done()]
+        if not pend:
+          if state['clients_done'] == len(threads):
+            return
+          continue
+        x = pend[srv_rng.randrange(len(pend))]
+        x['f'].set_result(payload)
+        log.append(('task_done', x['thread'], x['pool'], x['worker']))
+
+    for ti, (pi, ops) in enumerate(threads):
+      sched.spawn(client, name=f'P{pi}T{ti}', args=(pi, ops))
+    sched.spawn(remote, name='remote')
+    sched.run(30)
+  finally:
+    courier_worker.Worker.release = orig_release
+    courier_worker.Worker.acquire_by = orig_acquire
+    courier_worker.WorkerPool.next_idle_worker = orig_next_idle
+    courier_utils.futures = saved_futures
+  ctx.count('ownership_schedules')
+  ctx.count('run_sibling_schedules')
+  ctx.count('line_preemptions', sched.line_preemptions)
+  ctx.count('acquire_events', sum(1 for e in log if e[0] == 'acquire'))
+  ctx.count('release_events', sum(1 for e in log if e[0] == 'release'))
+  ctx.count('pool_runs_completed', counters['runs'])
+  ctx.count('runs_handed_a_worker_in_use_by_a_sibling', counters['handed_in_use'])
+  ctx.count('probe_acquires', counters['probe_acquires'])
+  ctx.case((runner.stable_hash(threads), n_w, sched.trace_hash()),
+           n_p >= 2 and sched.line_preemptions >= 1)
+  if not shared or 'threading' not in took:
+    ctx.inconclusive_case('pools do not share the worker objects / shim missing', case)
+    return
+  if sched.status == 'deadlock':
+    ctx.violation('deadlock', case, {'witness': sched.witness, 'log_tail': log[-12:]},
+                  mechanism='ownership:run_siblings:deadlock')
+    return
+  if sched.status != 'ok':
+    ctx.inconclusive_case(sched.status, case)
+    return
+  for name, e in sched.thread_errors().items():
+    ctx.violation('thread_error', case, {name: repr(e)},
+                  mechanism='ownership:run_siblings:thread-error')
+  n_runs = sum(1 for _, ops in threads for op in ops if op[0] == 'run')
+  # The first event of a schedule decides: once a root cause was witnessed the
+  # ownership state is corrupt and later events of the same schedule follow from it.
+  explained = 0
+  pos = {id(e): i for i, e in enumerate(log)}
+  for e in log:
+    if e[0] != 'VIOLATION':
+      continue
+    kind, wi, d = e[1], e[2], e[3]
+    mech = None
+    if kind == 'release_by_non_owner' and d['from_the_finally_of_run'] and d['unconditional_release']:
+      mech = K_RUN_FOREIGN
+    elif kind == 'worker_used_by_two_pools' and d.get('worker_released_under_this_run_by'):
+      # Audited root cause: the finally of a run() released the worker while another
+      # run() of the same pool, handed the same worker, was still using it.
+      mech = K_RUN_SIBLING
+    if mech is None:
+      if explained:
+        ctx.count('events_following_a_reported_root_cause')
+        continue
+      mech = 'ownership:run_siblings:' + kind
+    else:
+      explained += 1
+    ctx.violation(kind, case, {'worker': wi, 'event': d,
+                               'events_before': log[max(0, pos[id(e)] - 14):pos[id(e)]]},
+                  mechanism=mech)
+  raised = [e for e in log if e[0] == 'run_raised']
+  locked = [i for i, w in enumerate(workers) if w.is_locked()]
+  if explained:
+    return
+  if raised:
+    ctx.violation('run_raised', case, {'events': raised[:3]},
+                  mechanism='ownership:run_siblings:run-raises')
+  elif counters['runs'] != n_runs:
+    ctx.violation('run_lost', case, {'returned': counters['runs'], 'called': n_runs},
+                  mechanism='ownership:run_siblings:run-lost')
+  if locked:
+    ctx.violation('workers_not_released', case, {'locked': locked, 'log_tail': log[-20:]},
+                  mechanism='ownership:run_siblings:not-released-after-return')
+  if len(ctx.samples) < 4 and counters['handed_in_use']:
+    ctx.sample({'mode': 'ownership', 'scenario': 'run_siblings', 'threads': threads,
+                'events': log[:24]})
+
+
+def gen_run_siblings_case(rng):
+  n_w = rng.randint(1, 2)
+  n_p = rng.randint(2, 3)
+  threads = [[0, [['run']] * rng.randint(1, 2)] for _ in range(rng.randint(2, 3))]
+  for pi in range(1, n_p):
+    ops = []
+    for _ in range(rng.randint(2, 5)):
+      if rng.random() < 0.2:
+        ops.append(['run'])
+      else:
+        ops.append(['probe', rng.randrange(n_w), rng.randint(0, 2)])
+    threads.append([pi, ops])
+  return {'mode': 'ownership', 'scenario': 'run_siblings', 'workers': n_w, 'n_pools': n_p,
+          'threads': threads}
 
 
 # ---------------------------------------------------------------------------
